@@ -4,13 +4,13 @@ import os
 HERE = os.path.dirname(os.path.abspath(__file__))
 INV = ["NoViolation", "NoHang", "TimeBounded", "OneTransport", "LockSane", "OnePending", "RetryBounded", "NoUnhandled"]
 
-def mk(name, kind, ka, retries, ncallers, nreq, faults, connouts, maxcf, offsets, gaps, assume, fx="FxAll", strict="TRUE"):
+def mk(name, kind, ka, retries, ncallers, nreq, faults, connouts, maxcf, offsets, gaps, assume, fx="FxAll", strict="TRUE", cancel="{}"):
     with open(os.path.join(HERE, f"MC_Proto_{name}.cfg"), "w") as f:
         f.write("SPECIFICATION Spec\nCHECK_DEADLOCK FALSE\nCONSTANTS\n")
         f.write(f'  Kind = "{kind}"\n  KeepAlive = {ka}\n  Retries = {retries}\n  T = 4\n  CT = 20\n')
         f.write(f"  NCallers = {ncallers}\n  NReq = {nreq}\n  Faults <- {faults}\n  ConnOuts = {connouts}\n")
         f.write(f"  MaxConnFail = {maxcf}\n  Offsets = {offsets}\n  Gaps = {gaps}\n  Strict = {strict}\n  Horizon = 400\n")
-        f.write(f"  Fx <- {fx}\n  Assume = {assume}\n")
+        f.write(f"  Fx <- {fx}\n  Assume = {assume}\n  CancelAts = {cancel}\n")
         for i in INV:
             f.write(f"INVARIANT {i}\n")
 
@@ -30,6 +30,9 @@ for kind, conn in (("udp", UDPC), ("tcp", TCPC)):
         # the code as found (reproduces the defects listed in DESIGN.md section 7)
         mk(f"{kind}_{k}_asfound", kind, ka, 1, 1, 2, "FaultsFull", conn, 1, "{0}", "{0, 2}", "FALSE", fx="FxNone")
         mk(f"{kind}_{k}_nofixF", kind, ka, 1, 1, 2, "FaultsFull", conn, 1, "{0}", "{0, 2}", "FALSE", fx="FxNoF")
+        # the user cancels the task of a request in flight (beyond the listed properties; see Protocol!UCancel)
+        mk(f"{kind}_{k}_uc", kind, ka, 1, 1, 2, "FaultsCancel", '{"ok"}' if kind == "udp" else '{"ok", "refused"}', 1, "{0}", "{0}", "FALSE",
+           cancel="{2, 5, 6}")
 
 
 # conformance instances (ConformProtocol.tla): one per (kind, keep-alive, retries); scripts come from the harness
@@ -41,14 +44,20 @@ for kind in ("udp", "tcp"):
                 f.write("SPECIFICATION CSpec\nCHECK_DEADLOCK FALSE\nCONSTANTS\n")
                 f.write(f'  Kind = "{kind}"\n  KeepAlive = {ka}\n  Retries = {r}\n  T = 4\n  CT = 40\n  NCallers = 1\n  NReq = 3\n')
                 f.write('  Faults <- FaultsFull\n  ConnOuts = {"ok"}\n  MaxConnFail = 99\n  Offsets = {0}\n  Gaps = {0, 2}\n')
-                f.write("  Strict = TRUE\n  Horizon = 4000\n  Fx <- FxAll\n  Assume = FALSE\nINVARIANT CNoViolation\n")
+                f.write("  Strict = TRUE\n  Horizon = 4000\n  Fx <- FxAll\n  Assume = FALSE\n  CancelAts = {}\nINVARIANT CNoViolation\n")
+        # user cancellation (one caller, two requests, retries = 1; the script carries the cancellation instants)
+        with open(os.path.join(HERE, f"Conform_{kind}_{k}_uc.cfg"), "w") as f:
+            f.write("SPECIFICATION CSpec\nCHECK_DEADLOCK FALSE\nCONSTANTS\n")
+            f.write(f'  Kind = "{kind}"\n  KeepAlive = {ka}\n  Retries = 1\n  T = 4\n  CT = 40\n  NCallers = 1\n  NReq = 2\n')
+            f.write('  Faults <- FaultsFull\n  ConnOuts = {"ok"}\n  MaxConnFail = 99\n  Offsets = {0}\n  Gaps = {0, 2}\n')
+            f.write("  Strict = TRUE\n  Horizon = 4000\n  Fx <- FxAll\n  Assume = FALSE\n  CancelAts = {2, 5, 6}\nINVARIANT CNoViolation\n")
         # concurrent callers (scripts of the assumption alphabet, retries = 1)
         for nc, nreq in ((2, 1), (2, 2), (3, 1)):
             with open(os.path.join(HERE, f"Conform_{kind}_{k}_c{nc}x{nreq}.cfg"), "w") as f:
                 f.write("SPECIFICATION CSpec\nCHECK_DEADLOCK FALSE\nCONSTANTS\n")
                 f.write(f'  Kind = "{kind}"\n  KeepAlive = {ka}\n  Retries = 1\n  T = 4\n  CT = 40\n  NCallers = {nc}\n  NReq = {nreq}\n')
                 f.write('  Faults <- FaultsFull\n  ConnOuts = {"ok"}\n  MaxConnFail = 99\n  Offsets = {0}\n  Gaps = {0, 2}\n')
-                f.write("  Strict = TRUE\n  Horizon = 4000\n  Fx <- FxAll\n  Assume = TRUE\nINVARIANT CNoViolation\n")
+                f.write("  Strict = TRUE\n  Horizon = 4000\n  Fx <- FxAll\n  Assume = TRUE\n  CancelAts = {}\nINVARIANT CNoViolation\n")
 
 
 # simulation instances (GenProto.tla / MC_Gen.tla) and their conformance counterparts
@@ -66,5 +75,5 @@ for name, (nc, nreq, r, al, assume, offs, gaps) in GEN.items():
                     f.write(f"SPECIFICATION {spec}\nCHECK_DEADLOCK FALSE\nCONSTANTS\n")
                     f.write(f'  Kind = "{kind}"\n  KeepAlive = {ka}\n  Retries = {r}\n  T = 4\n  CT = {20 if mod == "Gen" else 40}\n  NCallers = {nc}\n  NReq = {nreq}\n')
                     f.write(f'  Faults <- {al if mod == "Gen" else "FaultsFull"}\n  ConnOuts = {conn}\n  MaxConnFail = 2\n  Offsets = {offs}\n  Gaps = {gaps}\n')
-                    f.write(f"  Strict = TRUE\n  Horizon = 4000\n  Fx <- FxAll\n  Assume = {assume}\n")
+                    f.write(f"  Strict = TRUE\n  Horizon = 4000\n  Fx <- FxAll\n  Assume = {assume}\n  CancelAts = {{}}\n")
                     f.write("INVARIANT GNoViolation\n" if mod == "Gen" else "INVARIANT CNoViolation\n")
